@@ -263,6 +263,15 @@ def r3(ctx):
         else:
             ok = False
     ctx.require(ok, pm, 'mask-order', 'padding_mask: len x true, then (max - len) x false', 'the mask is built as %s' % [repr(x)[:200] for x in msegs or ()])
+    # the rows are laid out item after item: the matrix has shape (number of items, maximum length), in this order -- the transposed shape holds the
+    # same number of elements, so from_shape_vec accepts it and every row is cut at the wrong place
+    for body_, what_ in ((b, 'pad_ids'), (pm, 'padding_mask')):
+        for t_ in body_.calls(r'from_shape_vec$'):
+            sh = core(sym(body_, t_.args[0]))
+            oks = sh[0] == 'agg' and sh[1] == 'tuple' and len(sh[3]) == 2 and match(core(init_value(body_, sh[3][0])), Call('len', ('arg', 1, ANY))) and \
+                has(init_value(body_, sh[3][1]), Call('Iterator::max', ANY))
+            ctx.require(oks, body_, 'shape|' + what_, '%s: the matrix has shape (items, max length)' % what_,
+                        '%s: the matrix is given the shape %s: rows and columns are exchanged, the values of an item no longer sit in its row' % (what_, show_in(body_, sh)[:80]), t_.span)
 
 
 @rule('C17', 'R-C17-4', 'T13 PAIR (sparse aggregation matrix)',
@@ -367,6 +376,34 @@ def r4(ctx):
             ok = v_[0] != 'const' and any(isinstance(x, tuple) and x and x[0] == 'field' and x[2] == 0 for x in walk(v_))
             ctx.require(ok, b, 'plane-value|%d' % k, 'plane %d holds the %s (the enumeration index of the %s loop)' % (k, want, 'batch' if k == 0 else 'group'),
                         'plane %d is filled with %s' % (k, show_in(b, v_)))
+    # plane 2: the position of the token INSIDE ITS ITEM: a counter that restarts at 0 for every item of the batch and advances by group_len
+    # per group (the running offset of the whole batch only coincides with it for the first item)
+    if 2 in planes:
+        sl = nosite(sym(b, planes[2].dest))
+        zips = [u for u in b.calls(r'Iterator::zip$') if any(isinstance(x, tuple) and nosite(x) == sl for x in walk(sym(b, u.args[0])))]
+        if len(zips) == 1:
+            rg = core(sym(b, zips[0].args[1]))
+            okz = rg[0] == 'agg' and rg[2].endswith('Range::Range')
+            lo = core(rg[3][0]) if okz else None
+            inner_lp = cfg.innermost_loop(b, zips[0].bb)
+            outer_lp = None
+            for l_ in cfg.loops(b):
+                if inner_lp is not None and inner_lp.blocks < l_.blocks and (outer_lp is None or len(l_.blocks) < len(outer_lp.blocks)):
+                    outer_lp = l_
+            okc = False
+            why = 'the token positions are %s' % (show_in(b, rg)[:80])
+            if okz and lo[0] == 'var' and len(lo) > 2 and inner_lp is not None and outer_lp is not None:
+                defs = local_defs(b, lo[2])
+                resets = [s_ for s_, v_ in defs if match(core(v_), Const(0))]
+                steps = [s_ for s_, v_ in defs if core(v_)[0] == 'bin' and core(v_)[1] == 'Add' and nosite(core(core(v_)[2])) == nosite(lo)]
+                okc = lo[2] != R['offset'] and len(resets) == 1 and resets[0].bb in outer_lp.blocks and resets[0].bb not in inner_lp.blocks and \
+                    len(steps) == 1 and steps[0].bb in inner_lp.blocks
+                if okc and p_gl is not None:
+                    okc = _poly.poly(rg[3][1]) == _poly._add(_poly.poly(rg[3][0]), p_gl, 1)
+                why = 'the token positions start at `%s`, which %s' % (show_in(b, lo), 'is the running offset of the whole batch' if lo[2] == R['offset'] else
+                                                                        'is not reset to 0 for every item and advanced by group_len per group')
+            ctx.require(okc, b, 'plane-value|2', 'plane 2 holds the token position inside its item (a per-item counter: 0 at the start of every item, + group_len per group)',
+                        why + ': from the second item of a batch on the positions lie outside the declared size', zips[0].span)
     offs = [(site, core(v)) for site, v in local_defs(b, R['offset'])]
     inc = [x for x in offs if not (x[1][0] == 'const')]
     ok = len(inc) == 1 and p_gl is not None and _poly.poly(inc[0][1]) == _poly._add(p_off, p_gl, 1)
@@ -376,6 +413,12 @@ def r4(ctx):
     ctx.require(ok, b, 'offset-step', 'offset += group_len once per group', None)
     ctx.require(len(glen) == 1, b, 'group-len', 'group_len = group.len()', None)
     ctx.require(len(strd) == 1, b, 'stride', 'stride = total number of tokens', None)
+    # the three planes are the ROWS of the index matrix: shape (3, stride)
+    for t_ in b.calls(r'from_shape_vec$'):
+        sh = core(sym(b, t_.args[0]))
+        oks = sh[0] == 'agg' and sh[1] == 'tuple' and len(sh[3]) == 2 and match(core(sh[3][0]), Const(3)) and strd and nosite(core(init_value(b, sh[3][1]))) == nosite(strd[0])
+        ctx.require(bool(oks), b, 'index-shape', 'the index matrix has shape (3, stride): one row per plane',
+                    'the index matrix is given the shape %s: the planes written at 0, stride, 2*stride are not its rows' % show_in(b, sh)[:60], t_.span)
 
 
 @rule('C17', 'R-C17-5', 'prerequisite (C01 framing agrees with the group counts)',
@@ -615,3 +658,12 @@ def r13(ctx):
     use = [t for t in tg.calls(r'utils::accumulate$')]
     ctx.require(len(use) == 1 and match(core(sym(tg, use[0].args[0])), ('arg', 2, ANY)), tg, 'acc-of-lengths', 'the offsets are checked against accumulate(lengths)', None,
                 use[0].span if use else None)
+
+
+@rule('C17', 'R-C17-14', 'T11 SIBLING (the Python encoding of the grouping options: writer and reader agree)',
+      'GroupAggregation ("mean" / "sum") and ByteGroups ("bytes" / "code_points") are read back from Python as the variant that was written: the '
+      'aggregation the weights are computed for is the one the configuration names')
+def r14(ctx):
+    from rules.common import py_encoding_agrees
+    py_encoding_agrees(ctx, 'tokenization::GroupAggregation', {'Mean', 'Sum'})
+    py_encoding_agrees(ctx, 'tokenization::ByteGroups', {'Bytes', 'CodePoints'})
